@@ -105,6 +105,9 @@ impl Cfg {
             // a memtable budget below the size of an empty memtable: every write rotates, also an
             // empty memtable (flushes that produce no table)
             "M0" => Cfg::new(1, 300, 16, reuse),
+            // zero for the file and block size limits
+            "Z" => Cfg::new(4 << 20, 0, 0, reuse),
+            "Zb0" => Cfg::new(4 << 20, 0, 0, reuse).with_bloom_bits(0),
             "D" => Cfg::new(4 << 20, 2 << 20, 4096, reuse),
             // every level 1..=5 overflows with its second ~150-byte file: data cascades to level 6
             "L" => Cfg::new(4 << 20, 300, 1, reuse).with_level_limit(250),
